@@ -35,57 +35,9 @@ func checkC01(w *World, r *Report) {
 
 func checkC01Entry(w *World, r *Report) {
 	ru := r.Rule("C01.1", "single matcher, right root, right path: the two matcher functions are called only from the root dispatcher and from themselves; transaction entry points look up in the transaction's own root, iterators in their snapshot root, router entry points in the tree they loaded; entry points taking a request use URL.RawPath when non-empty, else URL.Path", 12)
-	byPath, byDomain := w.Func("lookupByPath"), w.Func("lookupByDomain")
-	rootsLookup := w.Method("roots", "lookup")
+	lookupRootObligations(w, ru)
 	treeLookup := w.Method("iTree", "lookup")
-	txnT := w.FoxType("Txn")
-	rootTxnF := w.Field(txnT, "rootTxn")
-	innerRoot := w.Field(w.FoxType("tXn"), "root")
-	iterRoot := w.Field(w.FoxType("Iter"), "root")
-	allowedMatcherCallers := map[*ssa.Function]bool{rootsLookup: true, byPath: true, byDomain: true}
-	for _, fn := range w.FoxFuncs() {
-		eachInstr(fn, func(in ssa.Instruction) {
-			site, ok := in.(ssa.CallInstruction)
-			if !ok {
-				return
-			}
-			callee := site.Common().StaticCallee()
-			switch callee {
-			case byPath, byDomain:
-				ru.Check("call of "+callee.Name()+" in "+FuncName(fn), w.Pos(in.Pos()), "the matchers are entered only through roots.lookup (or recursively)", allowedMatcherCallers[fn], FuncName(fn))
-			case rootsLookup:
-				recv := site.Common().Args[0]
-				okk, why := false, "receiver "+valStr(recv)
-				root := fn
-				for root.Parent() != nil {
-					root = root.Parent()
-				}
-				switch {
-				case fn == treeLookup:
-					_, f, isLoad := loadedField(recv)
-					okk, why = isLoad && f.Name() == "root" && site.Common().Args[1] == ssa.Value(fn.Params[0]), "the tree's own roots"
-				case root.Signature.Recv() != nil && namedOf(root.Signature.Recv().Type()) == txnT:
-					b, f, isLoad := loadedField(recv)
-					if isLoad && f == innerRoot {
-						if _, f2, ok := loadedField(b); ok && f2 == rootTxnF {
-							okk, why = true, "txn.rootTxn.root (reads its own writes)"
-						}
-					}
-				default:
-					if _, f, isLoad := logicalField(recv); isLoad && f == iterRoot {
-						okk, why = true, "the iterator's snapshot root"
-					}
-				}
-				ru.Check("root used by "+FuncName(fn), w.Pos(in.Pos()), "looks up in the root that belongs to this entry point", okk, why)
-			case treeLookup:
-				// receiver must be the tree loaded once by this function
-				recv := site.Common().Args[0]
-				c, isCall := recv.(*ssa.Call)
-				okk := isCall && c.Call.StaticCallee() != nil && c.Call.StaticCallee().Name() == "getRoot"
-				ru.Check("tree used by "+FuncName(fn), w.Pos(in.Pos()), "looks up in the tree this function loaded (fox.getRoot())", okk, valStr(recv))
-			}
-		})
-	}
+	rootsLookup := w.Method("roots", "lookup")
 	// request path selection
 	for _, name := range [][2]string{{"Router", "ServeHTTP"}, {"Router", "Lookup"}, {"Txn", "Lookup"}} {
 		fn := w.Method(name[0], name[1])
@@ -154,6 +106,62 @@ func checkC01Entry(w *World, r *Report) {
 			}
 		}
 		ru.Check("entry point "+FuncName(e), w.Pos(e.Pos()), "reaches the shared root dispatcher roots.lookup", hit, fmt.Sprint(hit))
+	}
+}
+
+// lookupRootObligations: who may call the matchers, and which root each lookup entry point hands to them. Shared by
+// C01.1 and C02.7 (the exact-pattern lookups and iterators must read their own root, e.g. a transaction's uncommitted one).
+func lookupRootObligations(w *World, ru *Rule) {
+	byPath, byDomain := w.Func("lookupByPath"), w.Func("lookupByDomain")
+	rootsLookup := w.Method("roots", "lookup")
+	treeLookup := w.Method("iTree", "lookup")
+	txnT := w.FoxType("Txn")
+	rootTxnF := w.Field(txnT, "rootTxn")
+	innerRoot := w.Field(w.FoxType("tXn"), "root")
+	iterRoot := w.Field(w.FoxType("Iter"), "root")
+	allowedMatcherCallers := map[*ssa.Function]bool{rootsLookup: true, byPath: true, byDomain: true}
+	for _, fn := range w.FoxFuncs() {
+		eachInstr(fn, func(in ssa.Instruction) {
+			site, ok := in.(ssa.CallInstruction)
+			if !ok {
+				return
+			}
+			callee := site.Common().StaticCallee()
+			switch callee {
+			case byPath, byDomain:
+				ru.Check("call of "+callee.Name()+" in "+FuncName(fn), w.Pos(in.Pos()), "the matchers are entered only through roots.lookup (or recursively)", allowedMatcherCallers[fn], FuncName(fn))
+			case rootsLookup:
+				recv := site.Common().Args[0]
+				okk, why := false, "receiver "+valStr(recv)
+				root := fn
+				for root.Parent() != nil {
+					root = root.Parent()
+				}
+				switch {
+				case fn == treeLookup:
+					_, f, isLoad := loadedField(recv)
+					okk, why = isLoad && f.Name() == "root" && site.Common().Args[1] == ssa.Value(fn.Params[0]), "the tree's own roots"
+				case root.Signature.Recv() != nil && namedOf(root.Signature.Recv().Type()) == txnT:
+					b, f, isLoad := loadedField(recv)
+					if isLoad && f == innerRoot {
+						if _, f2, ok := loadedField(b); ok && f2 == rootTxnF {
+							okk, why = true, "txn.rootTxn.root (reads its own writes)"
+						}
+					}
+				default:
+					if _, f, isLoad := logicalField(recv); isLoad && f == iterRoot {
+						okk, why = true, "the iterator's snapshot root"
+					}
+				}
+				ru.Check("root used by "+FuncName(fn), w.Pos(in.Pos()), "looks up in the root that belongs to this entry point", okk, why)
+			case treeLookup:
+				// receiver must be the tree loaded once by this function
+				recv := site.Common().Args[0]
+				c, isCall := recv.(*ssa.Call)
+				okk := isCall && c.Call.StaticCallee() != nil && c.Call.StaticCallee().Name() == "getRoot"
+				ru.Check("tree used by "+FuncName(fn), w.Pos(in.Pos()), "looks up in the tree this function loaded (fox.getRoot())", okk, valStr(recv))
+			}
+		})
 	}
 }
 
